@@ -20,6 +20,7 @@ import (
 	"time"
 
 	"github.com/ohler55/slip"
+	"github.com/ohler55/slip/simrt"
 	"verif/sim/harness"
 	"verif/sim/simkit/lispsim"
 	"verif/sim/simkit/sched"
@@ -861,3 +862,41 @@ func (e *engine) Matches(raw json.RawMessage, v *harness.Violation, f harness.Fi
 }
 
 var _ = sort.Strings
+
+// RaceSweep is the auxiliary, non-gating part of C17: the same seeded programs
+// run free on the real Go runtime (simrt in passthrough mode) in a binary built
+// with -race. It is runtime monitoring, not simulation: nothing it reports is
+// replayable, so it never produces a VIOLATION; the driver lists the race
+// detector's reports that name slip frames in the evidence file.
+func RaceSweep(n int, seed uint64) (ran, timedOut int, panics int64) {
+	warm.Do(warmUp)
+	e := &engine{}
+	for i := 0; i < n; i++ {
+		var c Case
+		_ = json.Unmarshal(e.Generate(seed, i, "quick", nil), &c)
+		sfx := lispsim.Suffix()
+		p := c.program(sfx)
+		scope := slip.NewScope()
+		if p.setup != "" {
+			lispsim.Eval(lispsim.Read(p.setup), scope)
+		}
+		code := lispsim.Read(p.main)
+		var wg sync.WaitGroup
+		simrt.RealWG = &wg
+		done := make(chan struct{})
+		wg.Add(1)
+		go func() {
+			defer wg.Done()
+			lispsim.Eval(code, scope)
+		}()
+		go func() { wg.Wait(); close(done) }()
+		select {
+		case <-done:
+		case <-time.After(10 * time.Second):
+			timedOut++
+		}
+		ran++
+	}
+	simrt.RealWG = nil
+	return ran, timedOut, simrt.RealPanics.Load()
+}
